@@ -187,6 +187,26 @@ def instrument(base):
             self.sendlog.append((dst, offered, ("e", step[1])))
             raise OSError(errno_of(step[1]), "scripted " + step[1])
 
+        _bufmode = 0      # how the transport hands a datagram over: 0 bytes | 1 fresh bytearray (scribbled over later) | 2 ONE reused bytearray | 3 memoryview
+
+        def receive(self, **kw):
+            gram, src = super().receive(**kw)
+            if not gram or not self._bufmode:
+                return gram, src
+            data = bytes(gram)
+            prev = getattr(self, "_handed", None)
+            if self._bufmode == 1:
+                if prev is not None:
+                    prev[:] = b"\x00" * len(prev)          # the transport owns the buffer it handed over last time and re-uses it for something else
+                self._handed = bytearray(data)
+                return self._handed, src
+            if self._bufmode == 2:
+                if prev is None:
+                    self._handed = prev = bytearray()
+                prev[:] = data                               # recv_into style: the same bytearray object, refilled for every datagram
+                return prev, src
+            return memoryview(data), src
+
         def sign(self, vid, ser):
             rec = (vid if isinstance(vid, str) else bytes(vid).decode(), bytes(ser) if not isinstance(ser, str) else ser.encode())
             try:
@@ -308,11 +328,13 @@ def _vparts(verlog, states=None):
 
 
 def _entries(r):
+    """the reassembly state as the APPLICATION sees it in the containers it handed over"""
+    o = getattr(r, "_own", None) or dict(rxgs=r.rxgs, vids=r.vids, counts=r.counts, sources=r.sources)
     out = []
-    for mid, grams in r.rxgs.items():
-        vid = r.vids.get(mid)
-        out.append((mid.encode(), tuple((gn, bytes(b)) for gn, b in grams.items()), r.counts.get(mid),
-                    vid.encode() if vid is not None else None, addr_id(r.sources[mid])))
+    for mid, grams in o["rxgs"].items():
+        vid = o["vids"].get(mid)
+        out.append((mid.encode(), tuple((gn, bytes(b)) for gn, b in grams.items()), o["counts"].get(mid),
+                    vid.encode() if vid is not None else None, addr_id(o["sources"][mid])))
     return tuple(out)
 
 
@@ -398,7 +420,7 @@ def run_rx_ops(r, ops, feed=None, pending=None):
             cycle(r, op == "reopen")
             continue
         if op[0] == "keep":
-            set_keep(r.keep, op[1], op[2])
+            set_keep(r._own["keep"] if getattr(r, "_own", None) else r.keep, op[1], op[2])
             continue
         kind, b = op
         for g, s in b:
@@ -419,27 +441,60 @@ def run_rx_ops(r, ops, feed=None, pending=None):
         try:
             dl = tuple((m.encode(), addr_id(s), v.encode() if v is not None else None) for m, s, v in r.inbox)
             r.inbox.clear()
-            res.append((("delivered",) + dl, ("entries",) + _entries(r), ("queue", pending()), ("pending", len(r.rxms))))
+            res.append((("delivered",) + dl, ("entries",) + _entries(r), ("queue", pending()), ("pending", len(r._own["rxms"]) if getattr(r, "_own", None) else len(r.rxms))))
         except BaseException as ex:   # state the adapter cannot render is itself an observation
             res.append(("unreadable-state", type(ex).__name__))
             break
     return res
 
 
-def make_receiver(authic, flavor="memoer"):
-    """flavor: memoer | auth (AuthMemoer; only meaningful with authic) | udp | uxd (real PeerMemoer.receive over a scripted socket)"""
+def own_rx(shared=None):
+    """containers the APPLICATION owns and hands to the Memoer (empty at construction unless shared with an instance that already holds state);
+    the keep gets its keys only after construction"""
+    from collections import deque
+    o = dict(rxgs={}, sources={}, counts={}, vids={}, rxms=deque(), keep={})
+    if shared:
+        o.update({k: shared[k] for k in ("rxgs", "sources", "counts", "vids", "keep")})
+    return o
+
+
+def replaced(peer, own):
+    """names of the caller's containers the instance does not use"""
+    return sorted(k for k, v in own.items() if getattr(peer, k) is not v)
+
+
+RCFG = [{}, dict(size=33), dict(size=40, curt=True), dict(size=170, code="bAAG"), dict(size=300, code="bAAE", curt=True), dict(size=1),
+        dict(size=64000, code="bAAC")]
+
+
+def make_receiver(authic, flavor="memoer", buf=0, shared=None, rcfg=0):
+    """flavor: memoer | auth (AuthMemoer; only meaningful with authic) | udp | uxd (real PeerMemoer.receive over a scripted socket).
+    Every container parameter is supplied by the caller, who keeps using its own objects (r._own).
+    rcfg: the receiver's OWN rending configuration (size / code / curt), independent of any sender's — it must not matter for receiving."""
+    own = own_rx(shared)
+    cfgkw = dict(RCFG[rcfg % len(RCFG)])
     if flavor in ("udp", "uxd"):
         import importlib
         PM = instrument(importlib.import_module(f"hio.core.{flavor}.peermemoing").PeerMemoer)
-        r = PM(name="r", authic=authic, keep=keep())
+        r = PM(name="r", authic=authic, **own, **cfgkw)
         r.ls = RxSock()
         r.opened = True
         shape = "tuple" if flavor == "udp" else "str"      # what recvfrom really returns for that transport
-        return r, (lambda g, s: r.ls.queue.append((bytes(g), src_of(s, shape)))), (lambda: len(r.ls.queue))
-    TM = make_tm("auth" if flavor == "auth" and authic else "memoer")
-    r = TM(echoic=True, authic=authic, keep=keep()) if not (flavor == "auth" and authic) else TM(echoic=True, keep=keep())
-    r.reopen()
-    return r, None, None
+        feed, pend = (lambda g, s: r.ls.queue.append((bytes(g), src_of(s, shape)))), (lambda: len(r.ls.queue))
+    else:
+        TM = make_tm("auth" if flavor == "auth" and authic else "memoer")
+        if flavor == "auth" and authic:
+            cfgkw.pop("code", None)
+            r = TM(echoic=True, **own, **cfgkw)
+        else:
+            r = TM(echoic=True, authic=authic, **own, **cfgkw)
+        r._bufmode = buf % 4
+        r.reopen()
+        feed, pend = None, None
+    if not shared:
+        own["keep"].update(keep())          # the application learns the signers' keys after the Memoer exists
+    r._own = own
+    return r, feed, pend
 
 
 def run_rx(authic, ops, flavor="memoer"):
@@ -448,11 +503,45 @@ def run_rx(authic, ops, flavor="memoer"):
     decoy.echos.append((ref_gram("bAAA", False, mid_of(424242), 3, b"decoy"), src_of(9)))
     decoy.serviceAllRx()
     before = (_entries(decoy), len(decoy.inbox))
-    r, feed, pend = make_receiver(authic, flavor)
-    res = run_rx_ops(r, ops, feed, pend)
-    if (_entries(decoy), len(decoy.inbox)) != before or any(e[0] == mid_of(424242).encode() for o in res if o[0] not in ("escape", "unreadable-state") for e in o[1][1:]):
+    ndg = sum(len(op[1]) for op in norm_ops(ops) if not isinstance(op, str) and op[0] != "keep")
+    r, feed, pend = make_receiver(authic, "memoer" if flavor == "shared" else flavor, buf=ndg, rcfg=ndg // 4 + (1 if authic else 0))
+    if flavor == "shared":
+        res = run_rx_shared(r, authic, ops)
+    else:
+        res = run_rx_ops(r, ops, feed, pend)
+    bad = replaced(r, r._own)
+    if bad:
+        res.append(("callers-container-replaced",) + tuple(bad))
+    bq = bounded_queues(type(r)(echoic=True) if flavor not in ("udp", "uxd") else type(r)(name="dflt"))
+    if bq:
+        res.append(("bounded-queue",) + tuple(bq))
+    if (_entries(decoy), len(decoy.inbox)) != before or any(e[0] == mid_of(424242).encode() for o in res if isinstance(o[0], tuple) for e in o[1][1:]):
         res.append(("neighbour-instance-disturbed",))
-    return res, _vparts(r.verlog, keep_states(ops))
+    vl = r.verlog + (getattr(r, "_peer2").verlog if getattr(r, "_peer2", None) is not None else [])
+    return res, _vparts(vl, keep_states(ops))
+
+
+def run_rx_shared(r1, authic, ops):
+    """TWO instances sharing the reassembly dicts and the keep (a memo's grams may arrive at either): service call k is made on instance k % 2,
+    the second one is only constructed when first needed (its containers are non-empty by then).  Only greedy calls, no empty datagrams."""
+    peers = [r1, None]
+    res = []
+    k = 0
+    for op in norm_ops(ops):
+        if isinstance(op, str) or op[0] == "keep":
+            if not isinstance(op, str):
+                set_keep(r1._own["keep"], op[1], op[2])
+            continue
+        if peers[k % 2] is None:
+            peers[1], _f, _p = make_receiver(authic, "memoer", buf=k, shared=r1._own)
+            r1._peer2 = peers[1]
+        r = peers[k % 2]
+        k += 1
+        out = run_rx_ops(r, [("svc" if op[0] == "svc" else "all", op[1])])
+        res += out
+        if out and isinstance(out[-1][0], str):
+            break
+    return res
 
 
 def run_e2e(code, curt, size, authic, ki, memos, sched, hist=(), txpath="rend"):
@@ -462,16 +551,19 @@ def run_e2e(code, curt, size, authic, ki, memos, sched, hist=(), txpath="rend"):
     TM = make_tm()
     vid = key(ki)["vid"] if ki is not None else None
     allmids = [mid_of(m[1]) for m in memos]
+    from collections import deque
+    sown = dict(txms=deque(), txgs=deque(), keep={}, txbs=(bytearray(), None))      # the sending application's own containers
     try:
-        s = TM(code=code, curt=curt, size=size, keep=keep(), vid=vid, echoic=True)
+        s = TM(code=code, curt=curt, size=size, vid=vid, echoic=True, **sown)
     except BaseException as ex:
         return [("cfg-raise", exn_name(ex))], [], _vparts([]), None
+    sown["keep"].update(keep())             # keys arrive after construction
     s.reopen()
 
     def assign(pairs):
         for item in pairs:
             if item[0] == "keep":           # the sending application rotates its key for the vid of key item[1]
-                set_keep(s.keep, item[1], item[2])
+                set_keep(sown["keep"], item[1], item[2])
                 continue
             what, val = item
             try:
@@ -485,8 +577,11 @@ def run_e2e(code, curt, size, authic, ki, memos, sched, hist=(), txpath="rend"):
         # the queued way in: every memo is handed to memoit first, with its signer id given explicitly (the peer's own default is another one)
         s.vid = key((ki + 1) % 4)["vid"] if ki is not None else None
         s._mids = list(allmids)
-        for m in memos:
-            s.memoit(bytes(m[0]).decode(), addr(m[2]), vid)
+        for j_, m in enumerate(memos):
+            if j_ % 2:
+                sown["txms"].append((bytes(m[0]).decode(), addr(m[2]), vid))      # queued through the application's own deque
+            else:
+                s.memoit(bytes(m[0]).decode(), addr(m[2]), vid)
         got = {}
         fails = {}
         guard = 0
@@ -546,8 +641,12 @@ def run_e2e(code, curt, size, authic, ki, memos, sched, hist=(), txpath="rend"):
                 gs = rends[mi][1:]
                 bb.append((gs[gi % len(gs)], item[2] if len(item) > 2 else memos[mi][2]))
         ops.append((op[0], bb))
-    r, feed, pend = make_receiver(authic)
+    ndg_ = sum(len(o[1]) for o in ops if not isinstance(o, str) and o[0] != "keep")
+    r, feed, pend = make_receiver(authic, buf=ndg_, rcfg=ndg_ // 4 + len(memos) + size)      # a receiver configured on its own, differently from the sender
     res = run_rx_ops(r, ops, feed, pend)
+    bad = replaced(r, r._own) + replaced(s, {k: v for k, v in sown.items() if k != "txbs"})
+    if bad:
+        res.append(("callers-container-replaced",) + tuple(bad))
     stab = []
     seen = set()
     for v, ser, sig in s.signlog:
@@ -596,18 +695,39 @@ class FakeSock:
         raise OSError(errno_of(step[1]), "scripted " + step[1])
 
 
-def run_tx(grams, script, calls, peer=None):
+def bounded_queues(peer):
+    """queues a default-constructed Memoer owns that would silently discard entries: every deque must be unbounded (maxlen None)"""
+    from collections import deque
+    out = []
+    for name in ("txms", "txgs", "rxms", "echos", "inbox"):
+        q = getattr(peer, name, None)
+        if isinstance(q, deque) and q.maxlen is not None:
+            out.append(name)
+    for name in ("rxgs", "counts", "sources", "vids"):
+        d = getattr(peer, name, None)
+        if not isinstance(d, dict):
+            out.append(name)
+    return out
+
+
+def run_tx(grams, script, calls, peer=None, txbs=None):
     """peer=None: Memoer with a scripted send(); peer='udp'|'uxd': the real PeerMemoer (real Peer.send) over a scripted socket.
     calls: "g" serviceTxGrams | "o" serviceTxGramsOnce | "a" serviceAllTx | "c" close | "r" reopen | ("q", gram, dst) gramit"""
+    from collections import deque
+    shape0 = "tuple" if peer == "udp" else ("str" if peer == "uxd" else "mixed")
+    town = dict(txgs=deque(), txms=deque(),       # the application's own queues, empty at construction; txbs: a remainder it restores, if any
+                txbs=((bytearray(txbs[0]), addr(txbs[1], shape0)) if txbs else (bytearray(), None)))
+    if len(grams) >= 64:
+        town = {}           # long queues go through the containers the Memoer creates for itself
     if peer is None:
         TM = make_tm()
-        t = TM(script=[tuple(x) for x in script])
+        t = TM(script=[tuple(x) for x in script], **town)
         t.reopen()
         decoy = TM()
     else:
         import importlib
         PM = importlib.import_module(f"hio.core.{peer}.peermemoing").PeerMemoer
-        t = PM(name="t")
+        t = PM(name="t", **town)
         t.sendlog = []
         t.ls = FakeSock([tuple(x) for x in script], t.sendlog)
         t.opened = True
@@ -615,15 +735,19 @@ def run_tx(grams, script, calls, peer=None):
     decoy.gramit(b"decoy-gram", "d9")        # a neighbour instance with a queued gram of its own: must stay as it is
     shape = "tuple" if peer == "udp" else ("str" if peer == "uxd" else "mixed")
     shared = {}         # ONE bytearray object per distinct content: a buffer the caller fans out to several destinations / queues again
-    contents = [bytes(g) for g, _d in grams] + [bytes(c[1]) for c in calls if isinstance(c, (tuple, list))]
+    from collections import Counter
+    contents = Counter([bytes(g) for g, _d in grams] + [bytes(c[1]) for c in calls if isinstance(c, (tuple, list))])
 
     def form(i, g):
         g = bytes(g)
-        if contents.count(g) > 1 or i % 2:
+        if contents[g] > 1 or i % 2:
             return shared.setdefault(g, bytearray(g))
         return g
     for i, (g, d) in enumerate(grams):
-        t.gramit(form(i, g), addr(d, shape))      # both forms the API accepts
+        if i % 3 == 2 and town:
+            town["txgs"].append((form(i, g), addr(d, shape)))      # queued through the application's own deque
+        else:
+            t.gramit(form(i, g), addr(d, shape))      # both forms the API accepts
     res = []
 
     def state():
@@ -664,6 +788,11 @@ def run_tx(grams, script, calls, peer=None):
         res.append(("unreadable-state", type(ex).__name__))
     if list(decoy.txgs) != [(b"decoy-gram", "d9")] or decoy.txbs[1] is not None:
         res.append(("neighbour-instance-disturbed",))
+    if town and (t.txgs is not town["txgs"] or t.txms is not town["txms"]):
+        res.append(("callers-container-replaced",))
+    bq = bounded_queues(decoy)
+    if bq:
+        res.append(("bounded-queue",) + tuple(bq))
     if any(bytes(obj) != content for content, obj in shared.items()):
         res.append(("callers-buffer-modified",))       # the gram handed to gramit belongs to the caller
     return res
